@@ -1,7 +1,7 @@
 /-
 Spec side of C01: a reader for the canonical token language of the built-in literal types.  It is the fragment of Python's
 expression grammar the printers use — literals, `[..]`, `(..)` with the one-element comma rule, `{..}` as set or dict,
-`set()`, `frozenset()`, `frozenset([..])`, `float('inf')` — over the code tokens of `Spec/Tokens.lean`; optional trailing
+`set()`, `frozenset()`, `frozenset([..])`, `float('inf')`, and calls `name(arg, ..., key=value, ...)` — over the code tokens of `Spec/Tokens.lean`; optional trailing
 commas are accepted as Python accepts them.
 -/
 import PP.Spec.Tokens
@@ -19,6 +19,8 @@ inductive RVal where
   | set (xs : List RVal)
   | fset (xs : List RVal)
   | dict (kvs : List (RVal × RVal))
+  | call (name : Str) (items : List RVal)   -- `name(item, ...)`: positional items and `kwarg` items in the order written
+  | kwarg (name : Str) (v : RVal)           -- `name = value` inside a call
 deriving Repr, Inhabited
 
 def sNone : Str := [78, 111, 110, 101]
@@ -32,6 +34,24 @@ def sFrozenset : Str := [102, 114, 111, 122, 101, 110, 115, 101, 116]
 def isKwTok (s : Str) : Bool := s == sNone || s == sTrue || s == sFalse || s == sEll
 /-- a numeric literal starts with a digit or a minus sign -/
 def isNumTok (s : Str) : Bool := match s with | c :: _ => (48 ≤ c && c ≤ 57) || c == 45 | [] => false
+
+/-- an identifier (possibly dotted: the printers write a qualified name as one fragment) starts with a letter or `_` -/
+def isNameTok (s : Str) : Bool :=
+  match s with | c :: _ => (65 ≤ c && c ≤ 90) || (97 ≤ c && c ≤ 122) || c == 95 | [] => false
+
+def asCall (name : Str) (p : Option (List RVal × Bool × List CT)) : Option (RVal × List CT) :=
+  match p with | some (xs, _, r') => some (.call name xs, r') | none => none
+
+def asKw (name : Str) (p : Option (RVal × List CT)) : Option (RVal × List CT) :=
+  match p with | some (v, r') => some (.kwarg name v, r') | none => none
+
+/-- after a name: `= value` (a keyword item of a call) | `( items )` (a call) -/
+def afterName (s : Str) (r : List CT) (pv : List CT → Option (RVal × List CT))
+    (pt : List CT → Option (List RVal × Bool × List CT)) : Option (RVal × List CT) :=
+  match r with
+  | .code [61] :: r' => asKw s (pv r')
+  | .code [40] :: r' => asCall s (pt r')
+  | _ => none
 
 /-- an element followed by the rest of its sequence -/
 def thenTail (p : Option (RVal × List CT)) (k : List CT → Option (List RVal × Bool × List CT)) :
@@ -104,6 +124,9 @@ def parseV : Nat → List CT → Option (RVal × List CT)
           | _ => none)
       else if isKwTok s then some (.kw s, r)
       else if isNumTok s then some (.num s, r)
+      else if isNameTok s then
+        -- `name = value` (an argument of a call) | `name ( items )`
+        afterName s r (fun t => parseV f t) (fun t => parseTailStart f [41] t)
       else none
     | _ => none
 /-- elements up to the closer, at the start of a bracketed list: `close` | element tail -/
